@@ -52,7 +52,9 @@ theorem C20Srv_error_messages :
     what follows is not looked at. This is a property of the byte string alone. -/
 def ValidRequest (bs : List Byte) : Prop := ∃ items, Accepts bs items
 
-theorem readData_ok_iff_valid (chunks : List (List Byte)) :
+/-- `ReadData` succeeds on a delivery exactly when the bytes delivered are a valid request
+    stream — whatever the segmentation. -/
+theorem C20Srv_valid_iff_readData_ok (chunks : List (List Byte)) :
     (∃ d, readData chunks {} = (d, none)) ↔ ValidRequest chunks.flatten := by
   constructor
   · rintro ⟨d, h⟩
@@ -64,9 +66,10 @@ theorem readData_ok_iff_valid (chunks : List (List Byte)) :
     rw [readData_eq_readFlat, readFlat_ok_iff]
     exact ⟨items, t1, t0, l1, l0, tail, hs, hz, hall, rfl⟩
 
-theorem not_valid_of_error (bs : List Byte) (h : (readData [bs] {}).2 ≠ none) : ¬ ValidRequest bs := by
+/-- a stream on which the reader fails (delivered in one piece) is not valid -/
+theorem C20Srv_error_not_valid (bs : List Byte) (h : (readData [bs] {}).2 ≠ none) : ¬ ValidRequest bs := by
   intro hv
-  obtain ⟨d, hd⟩ := (readData_ok_iff_valid [bs]).mpr (by simpa using hv)
+  obtain ⟨d, hd⟩ := (C20Srv_valid_iff_readData_ok [bs]).mpr (by simpa using hv)
   rw [hd] at h
   exact h rfl
 
@@ -115,7 +118,7 @@ theorem C20Srv_verdict_iff (c : Conn) (hs : c.quic = false ∨ c.streamOk = true
                .port (c.localPort % 65536) false] ++ (c.cookies.filterMap id).map .cookie ++ [.end_]) := by
   have hns : ¬(c.quic = true ∧ (!c.streamOk) = true) := by
     rcases hs with h | h <;> simp [h]
-  have hvalid := readData_ok_iff_valid c.request
+  have hvalid := C20Srv_valid_iff_readData_ok c.request
   unfold verdict
   simp only [hns, if_false]
   cases hr : readData c.request {} with
@@ -212,7 +215,7 @@ theorem C20Srv_malformed_gets_bad_request (c : Conn) (hs : c.quic = false ∨ c.
 /-- non-vacuity: a request cut off inside its last header, and an unknown critical record -/
 example : ¬ ValidRequest ([128, 1, 0, 2, 0, 0, 128, 4, 0, 2, 0, 15, 128, 0, 0] : List Byte) ∧
     ¬ ValidRequest ([128, 9, 0, 0, 128, 0, 0, 0] : List Byte) :=
-  ⟨not_valid_of_error _ (by decide), not_valid_of_error _ (by decide)⟩
+  ⟨C20Srv_error_not_valid _ (by decide), C20Srv_error_not_valid _ (by decide)⟩
 
 /-! ### The response -/
 
@@ -248,8 +251,8 @@ theorem C20Srv_response_shape (c : Conn) (msg : List Rec) (h : verdict c = .resp
 theorem C20Srv_request_content_ignored (c : Conn) (r' : List (List Byte))
     (h1 : ValidRequest c.request.flatten) (h2 : ValidRequest r'.flatten) :
     handle { c with request := r' } = handle c := by
-  obtain ⟨d1, hd1⟩ := (readData_ok_iff_valid c.request).mpr h1
-  obtain ⟨d2, hd2⟩ := (readData_ok_iff_valid r').mpr h2
+  obtain ⟨d1, hd1⟩ := (C20Srv_valid_iff_readData_ok c.request).mpr h1
+  obtain ⟨d2, hd2⟩ := (C20Srv_valid_iff_readData_ok r').mpr h2
   unfold handle verdict
   simp only [hd1, hd2]
 
@@ -301,7 +304,7 @@ theorem C20Srv_client_request_served (c : Conn) (hs : c.quic = false ∨ c.strea
   have hvd : verdict c = .respond msg := by
     have hns : ¬(c.quic = true ∧ (!c.streamOk) = true) := by
       rcases hs with h | h <;> simp [h]
-    obtain ⟨d, hd⟩ := (readData_ok_iff_valid c.request).mpr hv
+    obtain ⟨d, hd⟩ := (C20Srv_valid_iff_readData_ok c.request).mpr hv
     unfold verdict
     simp only [hns, if_false, hd, hx, Bool.not_true, Bool.false_eq_true, hm]
   exact ⟨msg, hm, hvd, by simp [handle, hvd, Verdict.out]⟩
